@@ -223,7 +223,7 @@ class P:
                 else:
                     tail = e
                 break
-            if e[0] in ("if", "while", "match", "for", "foreach"):   # block-like statement without trailing semicolon
+            if e[0] in ("if", "while", "match", "for", "foreach", "fordownrange"):   # block-like statement without trailing semicolon
                 stmts.append(("expr", e))
                 continue
             raise Unsupported("statement near %r" % (self.peek()[1],))
@@ -398,6 +398,22 @@ class P:
             self.next()
             iv = self.next()[1]
             self.eat("in")
+            if self.at("("):
+                # `(LO..HI).rev()`
+                save = self.i
+                try:
+                    self.eat("(")
+                    lo = self.expr()
+                    self.eat("..")
+                    hi = self.expr()
+                    self.eat(")")
+                    self.eat(".")
+                    self.eat("rev")
+                    self.eat("(")
+                    self.eat(")")
+                    return ("fordownrange", iv, lo, hi, self.block())
+                except Unsupported:
+                    self.i = save
             lo = self.expr()
             if self.accept(".."):
                 hi = self.expr()
@@ -470,6 +486,8 @@ class Tr:
 
     def ex(self, f, e, env, want=None):
         k = e[0]
+        if k == "__atom":
+            return [], e[1], want or "usize"
         if k == "num":
             t = e[2] or want or "u64"
             return [], str(e[1]), t
@@ -480,7 +498,14 @@ class Tr:
             if nm == "None":
                 return [], "None", want if (want and want[0] == "option") else ("option", None)
             if nm in env:
-                return [], env[nm][0], env[nm][1]
+                ty = env[nm][1]
+                if isinstance(ty, tuple) and ty and ty[0] == "ref":
+                    # `let r = xs.get_unchecked(i)`: *r (or auto-deref) reads xs[i] now; Rust's borrow rules
+                    # guarantee that nothing wrote xs[i] since the reference was taken
+                    f.impure = True
+                    v = f.fresh()
+                    return ["do %s <- idx %s %s ;" % (v, env[ty[1]][0], paren(ty[2]))], v, "u64"
+                return [], env[nm][0], ty
             raise Unsupported("unbound " + nm)
         if k == "path":
             p = "::".join(e[1])
@@ -877,7 +902,18 @@ class Tr:
             f.impure = True
             v = f.fresh()
             return b + ["do %s <- tbl %s %s ;" % (v, env[recv[1]][0], paren(a))], v, env[recv[1]][1][1]
+        if m in ("get_unchecked", "get_unchecked_mut") and self.elem_ref(e) is not None and recv[1] in env \
+                and env[recv[1]][1] == ("slice", "u64"):
+            # out of bounds = undefined behaviour in Rust; the translation makes it a Panic
+            b, a, t = self.ex(f, args[0], env, "usize")
+            f.impure = True
+            v = f.fresh()
+            return b + ["do %s <- idx %s %s ;" % (v, env[recv[1]][0], paren(a))], v, "u64"
         br, ar, tr_ = self.ex(f, recv, env, want if m.startswith("wrapping_") else None)
+        if m == "is_empty" and isinstance(tr_, tuple) and tr_[0] == "slice":
+            return br, "(lenZ %s =? 0)" % paren(ar), "bool"
+        if m == "last" and isinstance(tr_, tuple) and tr_[0] == "slice" and not args:
+            return br, "(nth_error %s (Z.to_nat (lenZ %s - 1)))" % (paren(ar), paren(ar)), ("option", "u64")
         if tr_ == "uint":
             if m == "as_limbs":
                 return br, ar, ("slice", "u64")
@@ -909,7 +945,7 @@ class Tr:
             fn = {"u64": {"overflowing_add": "ov_add", "overflowing_sub": "ov_sub"},
                   "u128": {"overflowing_add": "ov_add128", "overflowing_sub": "ov_sub128"}}[tr_][m]
             return br + b, "(%s %s %s)" % (fn, paren(ar), paren(a)), ("tuple", [tr_, "bool"])
-        if m == "leading_zeros":
+        if m == "leading_zeros" and tr_ == "u64":
             return br, "(clz64 %s)" % paren(ar), "u32"
         if m == "count_ones" and tr_ == "u64":
             return br, "(popcnt64 %s)" % paren(ar), "u32"
@@ -930,7 +966,14 @@ class Tr:
                 for q in p[1]:
                     pv(q)
 
+        refs = {}
+
         def lhs(e):
+            er = self.elem_ref(e)
+            if er is not None:
+                e = ("var", er[0])
+            if e[0] == "var" and e[1] in refs:
+                e = ("var", refs[e[1]])
             if e[0] == "var":
                 if e[1] not in declared and e[1] not in out:
                     out.append(e[1])
@@ -948,6 +991,8 @@ class Tr:
             for s in b[1]:
                 if s[0] in ("let", "letdecl"):
                     pv(s[1])
+                    if s[0] == "let" and s[1][0] == "pvar" and self.elem_ref(s[3]) is not None:
+                        refs[s[1][1]] = self.elem_ref(s[3])[0]
                 elif s[0] == "assign":
                     lhs(s[1])
                 elif s[0] == "expr" and s[1][0] == "if":
@@ -960,7 +1005,7 @@ class Tr:
                     walk(s[1][4])
                 elif s[0] == "expr" and s[1][0] == "foreach":
                     walk(self.desugar_foreach(s[1])[4])
-                elif s[0] == "expr" and s[1][0] == "fordown":
+                elif s[0] == "expr" and s[1][0] in ("fordown", "fordownrange"):
                     walk(s[1][4])
                 elif s[0] == "expr" and s[1][0] == "mcall" and s[1][1][0] == "var" \
                         and 0 in self.sigs.get("U." + s[1][2], (0, 0, 0, 0, set()))[4]:
@@ -969,6 +1014,21 @@ class Tr:
                     self.kernel_targets(x, lhs)
         walk(blk)
         return out
+
+    @staticmethod
+    def unblock(e):
+        while isinstance(e, tuple) and e and e[0] == "block" and not e[1] and e[2] is not None:
+            e = e[2]
+        return e
+
+    def elem_ref(self, e):
+        """`xs.get_unchecked(E)` / `xs.get_unchecked_mut(E)` (possibly inside `unsafe { }`) on a slice
+        variable: (slice variable, index AST), else None."""
+        e = self.unblock(e)
+        if isinstance(e, tuple) and e and e[0] == "mcall" and e[2] in ("get_unchecked", "get_unchecked_mut") \
+                and e[1][0] == "var" and len(e[3]) == 1:
+            return e[1][1], e[3][0]
+        return None
 
     def desugar_foreach(self, e):
         """`for x in xs { .. *x .. }` over a slice `xs` (also `xs.iter_mut()`, `&mut xs`):
@@ -1071,6 +1131,13 @@ class Tr:
             env = dict(env)
             env[s[1][1]] = (s[1][1], "lit")     # integer literal without annotation: typed at first use
             return "let %s := %d in\n  %s" % (s[1][1], s[3][1], rest(env))
+        if k == "let" and s[1][0] == "pvar" and s[2] is None and self.elem_ref(s[3]) is not None \
+                and self.elem_ref(s[3])[0] in env and env[self.elem_ref(s[3])[0]][1] == ("slice", "u64"):
+            sv, ixe = self.elem_ref(s[3])
+            bi, ai, _ = self.ex(f, ixe, env, "usize")     # the index is evaluated where the reference is taken
+            env = dict(env)
+            env[s[1][1]] = (s[1][1], ("ref", sv, ai))
+            return "%s\n  %s" % (" ".join(bi), rest(env))
         if k == "let":
             b, a, t = self.ex(f, s[3], env, s[2])
             env = dict(env)
@@ -1089,12 +1156,18 @@ class Tr:
                 return f.unit_return(env)
             b, a, t = self.ex(f, s[1], env, retty)
             if f.mutouts:
-                raise Unsupported("return of a value in a function with &mut parameters")
+                # (result, new values of the &mut parameters): a callee that updated them has rebound their names
+                return " ".join(b) + " Val (%s)" % ", ".join([a] + [env[m][0] for m in f.mutouts])
             return " ".join(b) + " Val %s" % a
         if k == "assign":
             tgt = s[1]
             if tgt[0] == "un":
                 tgt = tgt[2]
+            er = self.elem_ref(tgt)
+            if er is not None:
+                tgt = ("index", ("var", er[0]), er[1])
+            elif tgt[0] == "var" and tgt[1] in env and isinstance(env[tgt[1]][1], tuple) and env[tgt[1]][1][:1] == ("ref",):
+                tgt = ("index", ("var", env[tgt[1]][1][1]), ("__atom", env[tgt[1]][1][2]))
             if s[2]:
                 rhs = ("bin", s[2], tgt, s[3])
             else:
@@ -1227,7 +1300,7 @@ class Tr:
                     " ".join(bh), w, paren(lo), paren(ah), cur, iv, st, pat, st, bcode, pat, w, rest(env))
             if e[0] == "foreach":
                 e = self.desugar_foreach(e)
-            if e[0] in ("for", "fordown"):
+            if e[0] in ("for", "fordown", "fordownrange"):
                 # `for i in LO..HI { body }`: the body runs for i = LO .. HI-1 on the tuple of the
                 # variables it assigns; LO and HI are evaluated once, before the loop
                 iv, body = e[1], e[4]
@@ -1256,6 +1329,10 @@ class Tr:
                 env = dict(env)
                 for v in vs:
                     env[v] = (v, env[v][1])
+                if e[0] == "fordownrange":  # `for i in (LO..HI).rev()`: i = HI-1 down to LO
+                    kv = "k_" + iv
+                    return "%s do %s <- for_down (Z.to_nat (%s - %s)) %s (fun %s %s => let %s := %s + %s in let '%s := %s in %s) ;\n  let '%s := %s in\n  %s" % (
+                        " ".join(bl + bh), w, paren(ah), paren(al), cur, kv, st, iv, paren(al), kv, pat, st, bcode, pat, w, rest(env))
                 if e[0] == "fordown":       # e[2] = trip count; i runs from count-1 down to 0
                     return "%s do %s <- for_down (Z.to_nat %s) %s (fun %s %s => let '%s := %s in %s) ;\n  let '%s := %s in\n  %s" % (
                         " ".join(bl), w, paren(al), cur, iv, st, pat, st, bcode, pat, w, rest(env))
@@ -1397,6 +1474,8 @@ TARGETS = [
     ("src/algorithms/shift.rs", None, "shift_right_small", "shift_right_small", "g_shift_right_small", None),
     ("src/algorithms/div/small.rs", None, "div_nx1_normalized", "div_nx1_normalized", "g_div_nx1_normalized", None),
     ("src/algorithms/div/small.rs", None, "div_nx2_normalized", "div_nx2_normalized", "g_div_nx2_normalized", None),
+    ("src/algorithms/div/small.rs", None, "div_nx1", "div_nx1", "g_div_nx1", None),
+    ("src/algorithms/div/small.rs", None, "div_nx2", "div_nx2", "g_div_nx2", None),
     # inherent methods of Uint<BITS, LIMBS>: generated with leading (BITS LIMBS : Z) parameters
     ("src/lib.rs", UINT_IMPL, "masked", "U.masked", "g_masked", "uint"),
     ("src/lib.rs", UINT_IMPL, "from_limbs", "U.from_limbs", "g_from_limbs", "uint"),
